@@ -313,14 +313,19 @@ template <sz N> void square_unary_case(std::string const &text, op<N, N> const &
       vrt::maybe_sample();
       auto const fa = fm::adjugate(s);
       C14_EQ(rd(fa), adj, fn + ":wrong", "adjugate(A)");
-      C14_EQ(rd(fm::adjugate(v)), adj, fn + ":wrong:view", "adjugate(A) (view storage)");
-      // A * adj(A) = adj(A) * A = det(A) * identity, all computed by fcppt
-      auto const di = fm::determinant(s) * fm::identity<smat<N, N>>();
-      C14_TRUE(s * fa == di, fn + ":law:A_adjA_eq_detI", ("A*adjugate(A)=" + show(rd(s * fa)) + " but determinant(A)*identity=" + show(rd(di))).c_str());
-      C14_TRUE(fa * s == di, fn + ":law:adjA_A_eq_detI", ("adjugate(A)*A=" + show(rd(fa * s)) + " but determinant(A)*identity=" + show(rd(di))).c_str());
-      C14_EQ(rd(s * fa), rscal(det, rident<N>()), fn + ":law:reference", "A*adjugate(A) vs det*I (reference)");
-      // adj(A^T) = adj(A)^T
-      C14_TRUE(fm::adjugate(fm::transpose(s)) == fm::transpose(fa), fn + ":transpose", "adjugate(transpose(A)) != transpose(adjugate(A))");
+      // one defect, one signature: the view variant and the laws are only judged when
+      // the plain result is right (they would fail as mere consequences otherwise)
+      if (rd(fa) == adj)
+      {
+        C14_EQ(rd(fm::adjugate(v)), adj, fn + ":wrong:view", "adjugate(A) (view storage)");
+        // A * adj(A) = adj(A) * A = det(A) * identity, all computed by fcppt
+        auto const di = fm::determinant(s) * fm::identity<smat<N, N>>();
+        C14_TRUE(s * fa == di, fn + ":law:A_adjA_eq_detI", "A*adjugate(A)=" + show(rd(s * fa)) + " but determinant(A)*identity=" + show(rd(di)));
+        C14_TRUE(fa * s == di, fn + ":law:adjA_A_eq_detI", "adjugate(A)*A=" + show(rd(fa * s)) + " but determinant(A)*identity=" + show(rd(di)));
+        C14_EQ(rd(s * fa), rscal(det, rident<N>()), fn + ":law:reference", "A*adjugate(A) vs det*I (reference)");
+        // adj(A^T) = adj(A)^T
+        C14_TRUE(fm::adjugate(fm::transpose(s)) == fm::transpose(fa), fn + ":transpose", "adjugate(transpose(A)) != transpose(adjugate(A))");
+      }
     }
   }
   if (det == 1 || det == -1) // the inverse is an integer matrix exactly for unimodular A
@@ -330,6 +335,9 @@ template <sz N> void square_unary_case(std::string const &text, op<N, N> const &
     {
       vrt::nontrivial(!(a == rident<N>()));
       vrt::maybe_sample();
+      // inverse = (1/det) * adjugate: judged only where determinant and adjugate are right
+      if (static_cast<long>(fm::determinant(s)) != det || !(rd(fm::adjugate(s)) == adj))
+        return;
       auto const inv = fm::inverse(s);
       C14_EQ(rd(inv), rscal(det, adj), fn + ":wrong", "inverse(A)");
       C14_EQ(rd(fm::inverse(v)), rscal(det, adj), fn + ":wrong:view", "inverse(A) (view storage)");
